@@ -167,11 +167,7 @@ func c09(r *core.Run) {
 	if sa := resolveSvc(r, "S9"); sa.ok {
 		ops, _ := stateOps(root, sa)
 		started := int64(-1)
-		for _, op := range ops {
-			if op.Op == "store" && op.Fn == sa.Serve {
-				started = op.New
-			}
-		}
+		started = startedConst(p, sa, ops)
 		n := 0
 		for _, c := range p.CallersOf(deflt) {
 			f := c.Parent()
